@@ -119,7 +119,7 @@ pub fn eval_one(profile: &str, ast: &Node, flags: Flags, hays: &[Hay], run: &Run
                 // byte offset (documented precondition: ASCII text; on other text only absence of
                 // out-of-range access is demanded).
                 let mut starts: Vec<usize> = if mode.ascii { (0..=text.len() + 1).collect() } else { hay.offs.iter().copied().chain(std::iter::once(text.len() + 1)).collect() };
-                if profile == "scale" && starts.len() > 14 {
+                if profile.starts_with("scale") && starts.len() > 14 {
                     // long haystacks of the size-parameterised families: both ends, the 8 / 16 / 32 marks, the middle
                     let n = starts.len();
                     starts = starts.iter().enumerate().filter(|(i, _)| *i <= 2 || *i + 4 >= n || *i == n / 2 || matches!(*i, 7 | 8 | 9 | 15 | 16 | 17 | 31 | 32 | 33)).map(|(_, s)| *s).collect();
@@ -255,14 +255,17 @@ pub fn explore(run: &Run) -> (Stats, Vec<(u64, u64)>) {
         let light = LIGHT.load(std::sync::atomic::Ordering::Relaxed);
         let mut fam = if light { crate::sweep::scale_family_fixed() } else { crate::sweep::scale_family(thorough) };
         fam.extend(crate::sweep::alignment_family());
+        // the same pattern occurs at several sizes with different haystacks: the digest key carries the entry's
+        // index, so that every (pattern, haystack list) has its own digest
+        let fam: Vec<(usize, (String, &'static str, Vec<String>))> = fam.into_iter().enumerate().collect();
         let a = fam
             .par_iter()
-            .fold(Acc::default, |mut acc, (p, f, hs)| {
+            .fold(Acc::default, |mut acc, (i, (p, f, hs))| {
                 let pat: Vec<u32> = p.chars().map(|c| c as u32).collect();
                 let fl = Flags::parse(f);
                 if let Ok(ast) = crate::refparse::parse(&pat, fl) {
                     let hays: Vec<Hay> = hs.iter().map(|h| Hay::new(h.chars().map(|c| c as u32).collect())).collect();
-                    eval_one("scale", &ast, fl, &hays, run, &mut acc);
+                    eval_one(&format!("scale#{}", i), &ast, fl, &hays, run, &mut acc);
                 }
                 acc
             })
